@@ -1898,6 +1898,12 @@ let rec seq start = function
 | O -> []
 | S len0 -> start :: (seq (S start) len0)
 
+(** val repeat : 'a1 -> nat -> 'a1 list **)
+
+let rec repeat x = function
+| O -> []
+| S k -> x :: (repeat x k)
+
 (** val eqb0 : byte -> byte -> bool **)
 
 let eqb0 a b =
@@ -7932,3 +7938,179 @@ let decode_msg l =
         | None -> None)
      | None -> None)
   | None -> None
+
+type wstate =
+| WIdle
+| WLocked
+| WGot of nat
+| WRunning of nat
+| WDisc
+| WExited
+
+type mstate =
+| MSubmitting
+| MJoining of nat
+| MReturned
+
+type label =
+| LSend
+| LDropSender
+| LJoined
+| LReturned
+| LLock of nat
+| LUnlock of nat
+| LExit of nat
+| LJobStart of nat * nat
+| LJobEnd of nat
+
+type pstate = { p_workers : wstate list; p_queue : nat list; p_sent : 
+                nat; p_sender : bool; p_lock : nat option; p_main : mstate;
+                p_starts : nat list; p_done : nat list }
+
+(** val pool_init : nat -> pstate **)
+
+let pool_init n0 =
+  { p_workers = (repeat WIdle n0); p_queue = []; p_sent = O; p_sender = true;
+    p_lock = None; p_main = MSubmitting; p_starts = []; p_done = [] }
+
+(** val set_nth : 'a1 list -> nat -> 'a1 -> 'a1 list **)
+
+let rec set_nth l i x =
+  match l with
+  | [] -> []
+  | y :: r -> (match i with
+               | O -> x :: r
+               | S k -> y :: (set_nth r k x))
+
+(** val upd : pstate -> nat -> wstate -> pstate **)
+
+let upd s w ws =
+  { p_workers = (set_nth s.p_workers w ws); p_queue = s.p_queue; p_sent =
+    s.p_sent; p_sender = s.p_sender; p_lock = s.p_lock; p_main = s.p_main;
+    p_starts = s.p_starts; p_done = s.p_done }
+
+(** val step : pstate -> label -> pstate option **)
+
+let step s = function
+| LSend ->
+  (match s.p_main with
+   | MSubmitting ->
+     if s.p_sender
+     then Some { p_workers = s.p_workers; p_queue =
+            (app s.p_queue (s.p_sent :: [])); p_sent = (S s.p_sent);
+            p_sender = true; p_lock = s.p_lock; p_main = MSubmitting;
+            p_starts = s.p_starts; p_done = s.p_done }
+     else None
+   | _ -> None)
+| LDropSender ->
+  (match s.p_main with
+   | MSubmitting ->
+     Some { p_workers = s.p_workers; p_queue = s.p_queue; p_sent = s.p_sent;
+       p_sender = false; p_lock = s.p_lock; p_main = (MJoining O); p_starts =
+       s.p_starts; p_done = s.p_done }
+   | _ -> None)
+| LJoined ->
+  (match s.p_main with
+   | MJoining i ->
+     (match nth_error s.p_workers i with
+      | Some w ->
+        (match w with
+         | WExited ->
+           Some { p_workers = s.p_workers; p_queue = s.p_queue; p_sent =
+             s.p_sent; p_sender = s.p_sender; p_lock = s.p_lock; p_main =
+             (MJoining (S i)); p_starts = s.p_starts; p_done = s.p_done }
+         | _ -> None)
+      | None -> None)
+   | _ -> None)
+| LReturned ->
+  (match s.p_main with
+   | MJoining i ->
+     if Nat.eqb i (length s.p_workers)
+     then Some { p_workers = s.p_workers; p_queue = s.p_queue; p_sent =
+            s.p_sent; p_sender = s.p_sender; p_lock = s.p_lock; p_main =
+            MReturned; p_starts = s.p_starts; p_done = s.p_done }
+     else None
+   | _ -> None)
+| LLock w ->
+  (match nth_error s.p_workers w with
+   | Some w0 ->
+     (match w0 with
+      | WIdle ->
+        (match s.p_lock with
+         | Some _ -> None
+         | None ->
+           let s' = upd s w WLocked in
+           Some { p_workers = s'.p_workers; p_queue = s.p_queue; p_sent =
+           s.p_sent; p_sender = s.p_sender; p_lock = (Some w); p_main =
+           s.p_main; p_starts = s.p_starts; p_done = s.p_done })
+      | _ -> None)
+   | None -> None)
+| LUnlock w ->
+  (match nth_error s.p_workers w with
+   | Some w0 ->
+     (match w0 with
+      | WLocked ->
+        (match s.p_queue with
+         | [] ->
+           if s.p_sender
+           then None
+           else let s' = upd s w WDisc in
+                Some { p_workers = s'.p_workers; p_queue = []; p_sent =
+                s.p_sent; p_sender = false; p_lock = None; p_main = s.p_main;
+                p_starts = s.p_starts; p_done = s.p_done }
+         | j :: q ->
+           let s' = upd s w (WGot j) in
+           Some { p_workers = s'.p_workers; p_queue = q; p_sent = s.p_sent;
+           p_sender = s.p_sender; p_lock = None; p_main = s.p_main;
+           p_starts = s.p_starts; p_done = s.p_done })
+      | _ -> None)
+   | None -> None)
+| LExit w ->
+  (match nth_error s.p_workers w with
+   | Some w0 -> (match w0 with
+                 | WDisc -> Some (upd s w WExited)
+                 | _ -> None)
+   | None -> None)
+| LJobStart (j, w) ->
+  (match nth_error s.p_workers w with
+   | Some w0 ->
+     (match w0 with
+      | WGot j' ->
+        if Nat.eqb j j'
+        then let s' = upd s w (WRunning j) in
+             Some { p_workers = s'.p_workers; p_queue = s.p_queue; p_sent =
+             s.p_sent; p_sender = s.p_sender; p_lock = s.p_lock; p_main =
+             s.p_main; p_starts = (app s.p_starts (j :: [])); p_done =
+             s.p_done }
+        else None
+      | _ -> None)
+   | None -> None)
+| LJobEnd j ->
+  (match find_index (fun ws ->
+           match ws with
+           | WRunning j' -> Nat.eqb j j'
+           | _ -> false) s.p_workers with
+   | Some w ->
+     let s' = upd s w WIdle in
+     Some { p_workers = s'.p_workers; p_queue = s.p_queue; p_sent = s.p_sent;
+     p_sender = s.p_sender; p_lock = s.p_lock; p_main = s.p_main; p_starts =
+     s.p_starts; p_done = (app s.p_done (j :: [])) }
+   | None -> None)
+
+(** val run : pstate -> label list -> pstate option **)
+
+let rec run s = function
+| [] -> Some s
+| l :: r -> (match step s l with
+             | Some s' -> run s' r
+             | None -> None)
+
+(** val first_rejected : pstate -> label list -> nat -> nat option **)
+
+let rec first_rejected s tr i =
+  match tr with
+  | [] -> None
+  | l :: r ->
+    (match step s l with
+     | Some s' -> first_rejected s' r (S i)
+     | None -> Some i)
